@@ -306,13 +306,21 @@ class disassembler(object):
                         # logger.debug(u'exception raised by disassembler:'
                         #             u'decoding %s with spec %s'%(codecs.encode(bytestring,'hex'),s.format))
                         continue
+                    except Exception:
+                        # unexpected error in a spec hook: drop any pending prefix
+                        self.__i = None
+                        raise
                     # we found the instruction (or prefix)
                     if i.spec.pfx is True:
                         if self.__i is None:
                             self.__i = i
                         return self(bytestring[s.mask.size // 8 :], **kargs)
                     elif i.spec.pfx == "xdata":
-                        i.xdata(i,**kargs)
+                        try:
+                            i.xdata(i,**kargs)
+                        except Exception:
+                            self.__i = None
+                            raise
                     self.__i = None
                     if "address" in kargs:
                         i.address = kargs["address"]
